@@ -49,8 +49,13 @@ def _remove_key(cache: _DNSRecordCacheType, key: _str, record: _DNSRecord) -> No
 
     This function must be run in from event loop.
     """
-    del cache[key][record]
-    if not cache[key]:
+    entries = cache.get(key)
+    if entries is None:
+        # Already gone: a listener called back about this record
+        # may have had the expired records purged in the meantime
+        return
+    entries.pop(record, None)
+    if not entries:
         del cache[key]
 
 
